@@ -7,6 +7,7 @@ mod refeval;
 mod signcrypt;
 mod signet;
 mod threshold;
+mod timelock;
 mod witness;
 
 use blsful::{Bls12381G1Impl, Bls12381G2Impl};
@@ -30,6 +31,8 @@ fn run_vector(v: &Value, group: &str, conc: &Conc, tables: &Tables) -> signet::O
         ("SigNet", "G2") => signet::run::<Bls12381G2Impl, RefG2>(v, conc, tables),
         ("SignCrypt", "G1") => signcrypt::run::<Bls12381G1Impl, RefG1>(v, conc, tables),
         ("SignCrypt", "G2") => signcrypt::run::<Bls12381G2Impl, RefG2>(v, conc, tables),
+        ("TimeLock", "G1") => timelock::run::<Bls12381G1Impl, RefG1>(v, conc, tables),
+        ("TimeLock", "G2") => timelock::run::<Bls12381G2Impl, RefG2>(v, conc, tables),
         ("Threshold", "G1") => threshold::run::<Bls12381G1Impl, RefG1>(v, conc, tables),
         ("Threshold", "G2") => threshold::run::<Bls12381G2Impl, RefG2>(v, conc, tables),
         (s, g) => signet::Outcome::fail(json!({}), format!("no interpreter for spec {s} group {g}")),
